@@ -199,3 +199,73 @@ def api_pq_lengths(*args):
                     msgs.append(f"read_parquet({kw}).partitions[{sel}].optimize(): len() == {len(x)}, computed {sum(want)}")
     shutil.rmtree(d, ignore_errors=True)
     return bool(msgs), "; ".join(msgs[:3]) or "lengths of partition-selected parquet reads equal the computed counts"
+
+
+# ---------------------------------------------------------------------------------------------- session histories over one real dataset (C15 / C18)
+
+def _pq_dataset(tag):
+    import os
+    import tempfile
+
+    import numpy as np
+    import pandas as pd
+
+    base = "/verif/.work/pq"
+    os.makedirs(base, exist_ok=True)
+    d = tempfile.mkdtemp(prefix=f"hist-{tag}-", dir=base)
+    rows = [3, 1, 4, 2]  # different lengths per file, so that a length taken from the wrong file or the wrong read shows
+    start = 0
+    for i, n in enumerate(rows):
+        pd.DataFrame({"a": np.arange(start, start + n), "b": np.arange(start, start + n) * 1.5, "c": 1}, index=pd.RangeIndex(start, start + n)).to_parquet(os.path.join(d, f"part.{i}.parquet"))
+        start += n
+    return d, rows
+
+
+def pq_metadata_histories(flag: bool) -> int:
+    """
+    pre: True
+
+    Every ordered pair / triple of metadata questions about one real dataset (lengths of column / partition selections, divisions) in one
+    process - the plan, statistics and dataset-info caches are shared by every read of the path - answers each question as a fresh process does
+    (the ground truth is computed from the files with pandas).  No symbolic variable: exhaustive over the stated question set.
+    """
+    import itertools
+    import shutil
+
+    import dask
+    import dask_expr as dx
+
+    dask.config.set({"dataframe.convert-string": False})
+    for kw in ({}, {"filesystem": "arrow"}):
+        questions = [
+            ("len(all)", lambda df: len(df), lambda rows: sum(rows)),
+            ("len([a].p[1])", lambda df: len(df[["a"]].partitions[[1]]), lambda rows: rows[1]),
+            ("len([b].p[0])", lambda df: len(df[["b"]].partitions[[0]]), lambda rows: rows[0]),
+            ("len(p[2,3])", lambda df: len(df.partitions[[2, 3]]), lambda rows: rows[2] + rows[3]),
+            ("len([c])", lambda df: len(df[["c"]]), lambda rows: sum(rows)),
+            ("len(a.p[3])", lambda df: len(df.a.partitions[[3]]), lambda rows: rows[3]),
+            ("sum(a)", lambda df: int(df.a.sum().compute(scheduler="sync")), lambda rows: sum(range(sum(rows)))),
+            ("len(filters)", lambda df: len(dx.read_parquet(df._verif_path, filters=[("a", ">", 3)], **kw).compute(scheduler="sync")), lambda rows: sum(rows) - 4),
+            ("len((p[1]+1)[[a]])", lambda df: len((df.partitions[[1]] + 1)[["a"]].compute(scheduler="sync")), lambda rows: rows[1]),
+        ]
+        for k in (2, 3):
+            for seq in itertools.permutations(range(len(questions)), k):
+                if k == 3 and not (seq[0] in (1, 2, 7) or seq[1] in (1, 2, 7)):
+                    continue  # triples: only those that go through a selecting / filtering read first (the others are covered by the pairs)
+                d, rows = _pq_dataset("arrow" if kw else "fsspec")
+                try:
+                    for qi in seq:
+                        name, ask, truth = questions[qi]
+                        df = dx.read_parquet(d, **kw)
+                        df._verif_path = d
+                        got = ask(df)
+                        if got != truth(rows):
+                            return (f"{'arrow' if kw else 'fsspec'} reader, history {[questions[i][0] for i in seq]}: {name} answered {got}, the files hold {truth(rows)}",)
+                finally:
+                    shutil.rmtree(d, ignore_errors=True)
+    return 1
+
+
+HARNESSES.append(dict(module=__name__, fn="pq_metadata_histories", props=["C15", "C18"], tier="quick", timeout=600, kind="sweep",
+                      bounds="exhaustive: ordered pairs (72) and the triples starting with a selecting / filtering read over 9 metadata / data questions about one real 4-file dataset, both readers (no symbolic variable)",
+                      functions=["dask_expr.io.parquet.ReadParquetFSSpec._plan", "_update_length_statistics", "_get_lengths", "ReadParquetPyarrowFS._get_lengths", "_dataset_info", "_cached_plan"]))
